@@ -480,7 +480,9 @@ Proof.
   intros WF. destruct i as [w p|p|req p name d mn mx|req p name d|req p name d dtxt parse mn mx]; cbn [spec_c20 model_obs].
   - destruct (defaults_of w p) as [dflt|] eqn:D; [|reflexivity].
     destruct (conflict p) eqn:C; [reflexivity|].
-    assert (keys_nodup p = true) as ND by (unfold well_formed in WF; cbn in WF; now rewrite andb_true_r in WF).
+    assert (keys_nodup p = true) as ND.
+    { unfold well_formed in WF. cbn [params_of] in WF.
+      apply andb_true_iff in WF as [WF _]. apply andb_true_iff in WF as [WF _]. apply andb_true_iff in WF as [WF _]. exact WF. }
     destruct (build_char w p dflt ND C D) as (cm & B & Ch). rewrite B.
     pose proof (defaults_wf _ _ _ D) as W.
     now rewrite (clause1_sound p dflt cm ND C W Ch), (clause2_sound p dflt cm C W Ch).
